@@ -343,5 +343,16 @@ def run_position_case(case, acc, prop='C03'):
         if not close(F(pos.realised_pnl) + F(pos.unrealised_pnl), F(pos.total_pnl), scale):
             raise Violation('C03', 'position/split', 'realised + unrealised != total', w)
         acc.count('C03:direct_position_checks')
+        if i % 3 == 1:
+            # a position restored in mid-life through the public constructor (e.g. from saved state) reports the same figures
+            twin = Position(pos.asset, pos.current_price, pos.current_dt, pos.buy_quantity, pos.sell_quantity,
+                            pos.avg_bought, pos.avg_sold, pos.buy_commission, pos.sell_commission)
+            for nm in ('net_quantity', 'market_value', 'realised_pnl', 'unrealised_pnl', 'total_pnl'):
+                a_, b_ = getattr(twin, nm), getattr(pos, nm)
+                if not (a_ == b_ or (a_ != a_ and b_ != b_)):
+                    raise Violation('C03', 'position/restored-' + nm.replace('_', '-'), 'a Position built by the constructor from the '
+                                    'quantities, averages and commissions of a live position reports %s = %r; the live one %r'
+                                    % (nm, a_, b_), w)
+            acc.count('C03:positions_restored_through_the_constructor')
         if net == 0 and i + 1 < len(case['fills']):
             acc.count('C03:direct_position_traded_on_after_flat')
